@@ -167,12 +167,16 @@ class T(ast.NodeTransformer):
         collect(fn, frozenset())
         if (assigned | tnames) & outside:
             return node
-        if not isinstance(node.target, ast.Name):
-            return node
         self.loop_no += 1
         name = f"__pyvc_body_{self.loop_no}"
         body = [self._fix_super(b) for b in node.body]
-        fdef = ast.FunctionDef(name=name, args=ast.arguments(posonlyargs=[], args=[ast.arg(arg=node.target.id)], kwonlyargs=[],
+        if isinstance(node.target, ast.Name):
+            argname = node.target.id
+        else:
+            # tuple target: def body(__pyvc_t): (a, b) = __pyvc_t; BODY
+            argname = "__pyvc_t"
+            body = [ast.Assign(targets=[node.target], value=ast.Name(id=argname, ctx=ast.Load()))] + body
+        fdef = ast.FunctionDef(name=name, args=ast.arguments(posonlyargs=[], args=[ast.arg(arg=argname)], kwonlyargs=[],
                                                              kw_defaults=[], defaults=[]), body=body, decorator_list=[], returns=None,
                                type_params=[])
         call = ast.Expr(value=ast.Call(func=self._rt("for_each"),
